@@ -513,7 +513,7 @@ impl Filter {
             return Ok(None); // actually an error
         }
 
-        let base_offset = crate::HEX_INVERSE[hex[32] as usize];
+        let base_offset = *crate::HEX_INVERSE.get(hex[32] as usize).unwrap_or(&255);
         if base_offset == 255 {
             return Ok(None); // actually an error
         }
